@@ -142,6 +142,10 @@ def call_repo(ex, qual, recv, args, kw, st, node, ctor=False):
     bound = bind_args(fsrc, recv, args, kw, ex, st)
     if callee is not None and not inline:
         return apply_contract(ex, callee, bound, st, node)
+    if not inline and _loop_free(fsrc.node):
+        # a helper without a contract of its own and without loops (e.g. one produced by an extract-function refactoring) is
+        # executed as part of its caller: nothing is assumed about it
+        inline = True
     if not inline:
         raise SymErr('call to %s (line %d): no contract and not inlined' % (qual, node.lineno))
     if ex.depth > 6:
@@ -161,6 +165,11 @@ def call_repo(ex, qual, recv, args, kw, st, node, ctor=False):
     if o.kind == 'raise':
         return RaisedValue(o.val.exc)
     return o.val
+
+
+def _loop_free(fnode):
+    return not any(isinstance(n, (ast.For, ast.While, ast.AsyncFor, ast.ListComp, ast.SetComp, ast.DictComp, ast.GeneratorExp, ast.Yield,
+                                  ast.YieldFrom, ast.Lambda, ast.Try, ast.With)) for n in ast.walk(fnode))
 
 
 _HOOKS = ('call_hook', 'contains_model', 'dict_model', 'builtin_model', 'method_model', 'join_model', 'with_model',
@@ -210,7 +219,11 @@ def apply_contract(ex, callee, bound, st, node):
     for ref in callee.modifies(K, bound):
         cur = st.heap[ref.id]
         if isinstance(cur, dict):
-            raise SymErr('modifies of an object record')
+            hr = getattr(callee, 'havoc_record', None)
+            if hr is None:
+                raise SymErr('modifies of an object record')
+            st.write_cell(ref, dict(cur, **hr(K, bound, ref, cur)))     # only the named fields change (frame of the record)
+            continue
         st.write_cell(ref, callee.havoc(K, bound, ref, cur))
     val = callee.result(K, bound)
     if getattr(callee, 'abstract_result', False):
@@ -600,6 +613,11 @@ def call_seq_method(ex, recv, name, A, kw, st, node):
         if r is NotImplemented:
             raise SymErr('method %s of an abstract value (line %d)' % (name, node.lineno))
         return r
+    hook0 = getattr(ex.c, 'method_model', None)
+    if hook0 is not None and getattr(ex.c, 'method_model_first', False):
+        r0 = hook0(ex, recv, name, A, kw, st, node)
+        if r0 is not NotImplemented:
+            return r0
     sq = seq_arg(ex, recv, st)
     mut = isinstance(recv, Ref)
     if name == 'append' and mut:
